@@ -64,7 +64,8 @@ RULE = ('cases: (a) hash functions on byte strings (random ASCII/UTF-8/raw bytes
 SHT = {'NULL': 0, 'SYMTAB': 2, 'STRTAB': 3, 'HASH': 5, 'DYNSYM': 11, 'SYMTAB_SHNDX': 18,
        'GNU_HASH': 0x6ffffff6, 'SUNW_LDYNSYM': 0x6ffffff3, 'SUNW_syminfo': 0x6ffffffc}
 SYMTYPES = [SHT['DYNSYM'], SHT['SYMTAB'], SHT['SUNW_LDYNSYM']]
-MACHINES = [3, 62, 40, 8, 20, 21, 183, 2, 0xfeed]
+# 22 = EM_S390 and 41 = EM_ALPHA: on ELF64 their SysV hash entries are 64-bit (the GNU hash keeps 32-bit words)
+MACHINES = [3, 62, 40, 8, 20, 21, 183, 2, 0xfeed, 22, 41, 22, 41]
 
 
 # ------------------------------------------------------------------ steering hashes (generation only)
@@ -232,10 +233,15 @@ def _absent_queries(rng, names, k):
     return out
 
 
-def _scenario(rng, n, big=False):
+def _scenario(rng, n, big=False, long_names=False):
     le = rng.randrange(2)
     is64 = rng.randrange(2)
     names = _names_for(rng, n)
+    if long_names:
+        ident = 'abcdefghijklmnopqrstuvwxyzABCDEFGHIJKLMNOPQRSTUVWXYZ0123456789_.$@'
+        names = [nm if rng.random() < 0.3 else
+                 ''.join(rng.choice(ident) for _ in range(rng.choice([65, 66, 127, 129, rng.randint(65, 700), rng.randint(65, 700)]))).encode()
+                 for nm in names]
     if n > 0 and rng.random() < 0.8:
         names[0] = b''                                           # the conventional null symbol
     syms = [_sym(rng, nm, is64) for nm in names]
@@ -292,10 +298,10 @@ def gen(ctx):
     # ---- (b,c,d) table scenarios
     sizes = [0, 0, 1, 1, 2, 2, 2, 3, 3] + [rng.randint(0, 12) for _ in range(90 * T)] + \
             [rng.randint(13, 120) for _ in range(8 * T)]
-    # large tables: quick = one of 400..700 symbols for every kind and one of 1200 for the symbol table only
+    # large tables: quick = one of 400..700 symbols for every kind and one of 800 for the symbol table only
     # (the extracted model is quadratic in the file size: 2000 symbols cost ~45 s); thorough = up to 2000 for every kind
     bigs = [rng.randint(400, 700)] + ([rng.randint(500, 2000) for _ in range(6)] + [2000] if T > 1 else [])
-    only_symtab = [] if T > 1 else [1200]
+    only_symtab = [] if T > 1 else [800]
     for n in sizes + bigs + only_symtab:
         big = n > 200
         common, names, queries = _scenario(rng, n, big)
@@ -321,6 +327,16 @@ def gen(ctx):
         if not big and n <= 12 and rng.random() < 0.5:
             # the same symbols under a second, independent GNU parameter choice
             cases.append(('gnu', common + [queries, _gnu_params(rng, names)]))
+    # ---- (h) long names (65..700 bytes) thousands of bytes from their entries: on real file objects they straddle the
+    #      reader's buffer boundaries (every 8192 bytes from the last refill; every 16 bytes on file_small)
+    for _ in range(14 * T):
+        n = rng.randint(5, 22)
+        common, names, queries = _scenario(rng, n, long_names=True)
+        common[4] = 3
+        cases.append(('symtab', common + [queries, 0, [rng.getrandbits(32) for _ in range(n)], 0,
+                                          [[rng.randrange(65536), rng.randrange(65536)] for _ in range(n)]]))
+        cases.append(('sysv', common + [queries, [rng.randint(1, n), rng.randrange(2)]]))
+        cases.append(('gnu', common + [queries, _gnu_params(rng, names)]))
     # ---- (f) histories on ONE SymbolTableSection object (its _symbol_name_map is state)
     for _ in range(140 * T):
         n = rng.choice([1, 2, 3, 4, 5, 6, 8, 10, 12, rng.randint(0, 12), rng.randint(13, 60)])
@@ -443,8 +459,13 @@ def corpus(ctx):
                 out.append(('filehist', [le, is64, 62, 0, 0, 13, hs, [1, 1, 1, 5, 0, 0], [2, 0], 0, 0, 17,
                                          [['next', 0], mid, ['next', 0], ['next', 1], ['next', 0], ['byname', b'dup']]]))
     # real linker output (GNU ld and gold, both classes): see corpus/C03/README
+    from tools.lib import streams
     for f in _corpus_files():
-        out.append(('elf-file', [f.encode(), ctx.rng.getrandbits(32)]))
+        seed = ctx.rng.getrandbits(32)
+        # the two small objects on every stream kind, the two large ones on BytesIO and two drawn kinds
+        kinds = streams.KINDS if 'both' in f else ('bytesio',) + tuple(ctx.rng.sample(streams.KINDS[1:], 2))
+        for skind in kinds:
+            out.append(('elf-file', [f.encode(), seed, skind.encode()]))
     return out
 
 
@@ -456,9 +477,30 @@ def _corpus_files():
 
 
 # ------------------------------------------------------------------ image assembly (harness side)
+_STREAMS = None          # tools.lib.streams.Streams of the running evaluate()
+
+
+def _stream_kind(seed, strmode=0):
+    """the kind of stream the library is handed, a function of the case's fill seed (so that a case replays)"""
+    from tools.lib import streams
+    r = random.Random('kind-%d' % seed)
+    if strmode == 3:                 # far-apart long names: real buffered readers
+        return r.choice(['file', 'file', 'file_warm', 'file_end', 'gzip', 'file_small', 'mmap'])
+    return streams.draw_kind(r, 0.5)
+
+
+def _open_stream(ctx, img, skind):
+    ctx.bump('stream_kind', skind)
+    return _STREAMS.open(img, skind)
+
+
 def _build_strtab(names, mode, rng):
-    """returns (strtab bytes, st_name offsets); mode 0: plain; 1: duplicates/suffixes merged; 2: garbage strings between"""
+    """returns (strtab bytes, st_name offsets); mode 0: plain; 1: duplicates/suffixes merged; 2: garbage strings between;
+    3: a long filler string first (0..9000 bytes) and fillers of 0..600 bytes between, so that names lie thousands of bytes
+    from their entries and from each other and straddle the read-buffer boundaries of real file objects"""
     tab = bytearray(b'\0')
+    if mode == 3:
+        tab += _garbage(rng, rng.randint(0, 9000)) + b'\0'
     offs = []
     seen = {}
     for nm in names:
@@ -479,6 +521,8 @@ def _build_strtab(names, mode, rng):
                 continue
         if mode == 2 and rng.random() < 0.3:
             tab += bytes(rng.randint(1, 255) for _ in range(rng.randint(1, 5))) + b'\0'
+        if mode == 3 and rng.random() < 0.2:
+            tab += _garbage(rng, rng.randint(0, 600)) + b'\0'
         offs.append(len(tab))
         seen[nm] = len(tab)
         tab += nm + b'\0'
@@ -593,24 +637,31 @@ def _enum_tables(drv):
 
 
 def evaluate(ctx, cases):
+    global _STREAMS
+    from tools.lib import streams
     drv = ctx.driver
     ENUMS = _enum_tables(drv)
     hf = [(i, c) for i, c in enumerate(cases) if c[0] == 'hashfn']
     if hf:
         _eval_hashfn(ctx, [c for _, c in hf])
-    for kind, a in cases:
-        if kind == 'hashfn':
-            continue
-        if kind == 'elf-file':
-            _eval_file(ctx, kind, a, ENUMS)
-            continue
-        if kind == 'symhist':
-            _eval_hist(ctx, kind, a, ENUMS)
-            continue
-        if kind == 'filehist':
-            _eval_filehist(ctx, kind, a, ENUMS)
-            continue
-        _eval_table(ctx, kind, a, ENUMS)
+    _STREAMS = streams.Streams(prefix='pv-streams-c03-')
+    try:
+        for k, (kind, a) in enumerate(cases):
+            if kind == 'hashfn':
+                continue
+            if k % 40 == 0:
+                _STREAMS.drop_files()
+            if kind == 'elf-file':
+                _eval_file(ctx, kind, a, ENUMS)
+            elif kind == 'symhist':
+                _eval_hist(ctx, kind, a, ENUMS)
+            elif kind == 'filehist':
+                _eval_filehist(ctx, kind, a, ENUMS)
+            else:
+                _eval_table(ctx, kind, a, ENUMS)
+    finally:
+        _STREAMS.close()
+        _STREAMS = None
 
 
 def _eval_hashfn(ctx, cases):
@@ -693,7 +744,7 @@ def _eval_table(ctx, kind, a, ENUMS):
             chains[i] = buckets[b]
             buckets[b] = i
         T = [buckets, chains]
-        hb, wf = drv.batch([['enc_sysv', le, T], ['wf_sysv', T, strtab, rows]])
+        hb, wf = drv.batch([['enc_sysv_m', le, T, is64, machine], ['wf_sysv', T, strtab, rows]])
         in_dom = in_dom and bool(wf)
         tables['wf'] = bool(wf)
         secs.append(dict(name='.hash', type=SHT['HASH'], data=hb, link=2, entsize=4))
@@ -721,7 +772,7 @@ def _eval_table(ctx, kind, a, ENUMS):
             last = len(secs) - 1
     img, offs_sec = _assemble(le, is64, machine, secs, rng, last=last, tight=n > 200)
     cfg = [le, is64, [offs_sec[1], len(symbytes), entsize], offs_sec[0]]
-    elf = ELFFile(io.BytesIO(img))
+    elf = ELFFile(_open_stream(ctx, img, _stream_kind(fill_seed, strmode)))
     symsec = elf.get_section(2)
     qstr = [q.decode('utf-8', errors='replace') for q in queries]
     ctx.bump('kind', kind)
@@ -764,7 +815,7 @@ def _eval_table(ctx, kind, a, ENUMS):
     lo = 1 if kind == 'sysv' else so
     present = drv.one(['spec_present', strtab, rows, lo, queries])
     hashed_views = views[lo:]
-    m = drv.one(['m_sysv' if kind == 'sysv' else 'm_gnu', img, cfg, offs_sec[2], queries])
+    m = drv.one(['m_sysv' if kind == 'sysv' else 'm_gnu', img, cfg, offs_sec[2], queries, machine])
     def canon_model(r):
         if isinstance(r, list) and r and r[0] == 'ok':
             return _ok(_lookup_obs(r[1] if r[1] == 'none' else r[1][1], hashed_views))
@@ -903,7 +954,9 @@ def _eval_file(ctx, kind, a, ENUMS):
     cfg = [le, is64, [dynsym['off'], dynsym['size'], dynsym['entsize']], strsec['off']]
     m_iter, m_by, m_s, m_g = drv.batch([['m_iter', img, cfg], ['m_by_name', img, cfg, queries],
                                         ['m_sysv', img, cfg, hsec['off'], queries], ['m_gnu', img, cfg, gsec['off'], queries]])
-    elf = ELFFile(io.BytesIO(img))
+    skind = a[2].decode() if len(a) > 2 else 'bytesio'
+    ctx.bump('elf_file_stream', fname + ' ' + skind)
+    elf = ELFFile(_open_stream(ctx, img, skind))
     symsec = elf.get_section(dynsym['index'])
     qstr = [q.decode('utf-8') for q in queries]
     impl = [_call(lambda: _ok([_view(s, ENUMS) for s in symsec.iter_symbols()])),
@@ -961,7 +1014,7 @@ def _eval_hist(ctx, kind, a, ENUMS):
     img, offs_sec = _assemble(le, is64, machine, secs, rng)
     cfg = [le, is64, [offs_sec[1], len(symbytes), entsize], offs_sec[0]]
     model = drv.one(['m_hist', img, cfg, calls])
-    symsec = ELFFile(io.BytesIO(img)).get_section(2)
+    symsec = ELFFile(_open_stream(ctx, img, _stream_kind(fill_seed, strmode))).get_section(2)
     impl = []
     stops = []
     for o in ops:
@@ -1059,7 +1112,7 @@ def _eval_filehist(ctx, kind, a, ENUMS):
     (symbytes, ok, views, xb, xok, ib, iok, ispec, hb, wfs, gbytes, wfg, ps, pg, (calls_ok, answers)) = drv.batch(
         [['enc_symtab', le, is64, rows], ['symtab_ok', is64, entsize, rows, strtab], ['spec_views', strtab, rows],
          ['enc_shndx', le, xrows], ['shndx_ok', 4 + xextra, xrows], ['enc_syminfo', le, irows], ['syminfo_ok', 4 + iextra, irows],
-         ['spec_syminfo', strtab, rows, irows], ['enc_sysv', le, Ts], ['wf_sysv', Ts, strtab, rows],
+         ['spec_syminfo', strtab, rows, irows], ['enc_sysv_m', le, Ts, is64, machine], ['wf_sysv', Ts, strtab, rows],
          ['enc_gnu', le, is64, Tg], ['wf_gnu', is64, Tg, strtab, rows],
          ['spec_present', strtab, rows, 1, hq], ['spec_present', strtab, rows, so, hq], ['spec_hist', strtab, rows, calls]])
     in_dom = all(bool(x) for x in (ok, xok, iok, wfs, wfg, calls_ok)) and all(_is_utf8(x) for x in names) and \
@@ -1072,7 +1125,8 @@ def _eval_filehist(ctx, kind, a, ENUMS):
             dict(name='.gnu.hash', type=SHT['GNU_HASH'], data=gbytes, link=2, entsize=0)]
     img, so_ = _assemble(le, is64, machine, secs, rng)
     cfg = [le, is64, [so_[1], len(symbytes), entsize], so_[0]]
-    elf = ELFFile(io.BytesIO(img))
+    skind = _stream_kind(fill_seed, strmode)
+    elf = ELFFile(_open_stream(ctx, img, skind))
     symsec, xsec, isec, hsec, gsec = (elf.get_section(i) for i in (2, 3, 4, 5, 6))
     gens, igens, ipos = {}, {}, {}
     impl, spec, tags, cursors = [], [], [], []
@@ -1146,7 +1200,7 @@ def _eval_filehist(ctx, kind, a, ENUMS):
             sec = hsec if t == 'sysvcount' else gsec
             impl.append(_call(lambda: _ok(sec.get_number_of_symbols()))); spec.append(_ok(n)); tags.append(t)
         elif t == 'seek':
-            elf.stream.seek(o[1])
+            elf.stream.seek(o[1] % (len(img) + 1) if skind == 'mmap' else o[1])      # mmap refuses to seek past its end
         elif t == 'secdata':
             _call(lambda: elf.get_section(o[1]).data())
         elif t == 'getsec':
@@ -1154,7 +1208,7 @@ def _eval_filehist(ctx, kind, a, ENUMS):
     model_sym = drv.one(['m_hist', img, cfg, calls, cursors])
     m_x, m_i, m_s, m_g = drv.batch([['m_shndx', img, le, [so_[2], len(xb), 4 + xextra], list(range(n))],
                                     ['m_syminfo', img, cfg, [so_[3], len(ib), 4 + iextra]],
-                                    ['m_sysv', img, cfg, so_[4], hq], ['m_gnu', img, cfg, so_[5], hq]])
+                                    ['m_sysv', img, cfg, so_[4], hq, machine], ['m_gnu', img, cfg, so_[5], hq]])
     m_views = drv.one(['m_get', img, cfg, list(range(n))])
     model = []
     ai = hqi = 0
